@@ -76,7 +76,8 @@ theorem assemble {opt : WOpts} (hok : WOptsOK opt) {t1 : TableBuilder} {fl : Lis
       ∧ (∀ (i : Nat) (di dj : DBlock), t.blocks[i]? = some di → t.blocks[i+1]? = some dj →
            di.handle.offset + di.handle.size + 5 ≤ dj.handle.offset)
       ∧ (∀ d ∈ t.blocks, d.handle.offset + d.handle.size + 5 ≤ t.metaHandle.offset)
-      ∧ (∀ d, t.blocks[0]? = some d → d.handle.offset = 0) := by
+      ∧ (∀ d, t.blocks[0]? = some d → d.handle.offset = 0)
+      ∧ SpecExtras t := by
   have hl := hok.lawful
   -- abbreviations
   generalize hF : fb.finish opt.filter = F at *
@@ -169,7 +170,8 @@ theorem assemble {opt : WOpts} (hok : WOptsOK opt) {t1 : TableBuilder} {fl : Lis
   -- data blocks
   have hdata : ∀ f ∈ fl, ∃ p : PBlock, p.contents = f.bb.finish ∧ p.WF ∧ p.kvs = f.kvs ∧
       tableBlockAt (fileImg opt fl F mb ib) (f.handle opt) = .ok f.bb.finish ∧
-      InBounds (f.handle opt) (fileImg opt fl F mb ib).length := by
+      InBounds (f.handle opt) (fileImg opt fl F mb ib).length ∧
+      Spec.Format.parseBlock p.contents = some { entries := p.kvs, restarts := p.rs } := by
     intro f hf
     obtain ⟨pre, post, h1, h2⟩ := hpos f hf
     have himgD : fileImg opt fl F mb ib = pre ++ physicalBlock (stored opt f.bb.finish) (ty opt)
@@ -188,7 +190,8 @@ theorem assemble {opt : WOpts} (hok : WOptsOK opt) {t1 : TableBuilder} {fl : Lis
     have hh : f.handle opt = ⟨pre.length, (stored opt f.bb.finish).length⟩ := by
       simp [Fl.handle, Fl.data, h2]
     rw [hh]
-    exact ⟨p, hp1, hp2, hp3, hp4, hp5⟩
+    exact ⟨p, hp1, hp2, hp3, hp4, hp5,
+      parse_block_spec (hinv.blk f hf).2.1 (hinv.blk f hf).2.2.1 (hlenD f hf) p hp1 hp2⟩
   obtain ⟨ps, hps, hR⟩ := exists_pairs _ fl hdata
   -- facts about the list of data block records
   have hmem : ∀ d ∈ ps.map (mkD opt), ∃ q ∈ ps, d = mkD opt q ∧ q.1 ∈ fl := by
@@ -214,7 +217,7 @@ theorem assemble {opt : WOpts} (hok : WOptsOK opt) {t1 : TableBuilder} {fl : Lis
   have hpair := offs_pairwise opt fl 0 hinv.offs
   -- the table image
   refine ⟨⟨fileImg opt fl F mb ib, mHandle opt fl F mb, iHandle opt fl F mb ib, pI, pM, ps.map (mkD opt)⟩,
-    rfl, ?_, ?_, ?_, ?_, ?_, ?_, ?_⟩
+    rfl, ?_, ?_, ?_, ?_, ?_, ?_, ?_, ?_⟩
   · -- WF
     exact {
       size := by
@@ -260,7 +263,7 @@ theorem assemble {opt : WOpts} (hok : WOptsOK opt) {t1 : TableBuilder} {fl : Lis
       dataBounds := by
         intro d hd
         obtain ⟨q, hq, rfl, _⟩ := hmem d hd
-        exact (hR q hq).2.2.2.2
+        exact (hR q hq).2.2.2.2.1
       dataRead := by
         intro d hd
         obtain ⟨q, hq, rfl, _⟩ := hmem d hd
@@ -382,6 +385,44 @@ theorem assemble {opt : WOpts} (hok : WOptsOK opt) {t1 : TableBuilder} {fl : Lis
       rw [hfl] at this
       simp only [Offs] at this
       rw [← hf0]; exact this.1
+  · -- what the bridge to the independent decoder needs
+    exact {
+      dataParse := by
+        intro d hd
+        obtain ⟨q, hq, rfl, _⟩ := hmem d hd
+        exact (hR q hq).2.2.2.2.2
+      indexParse := parse_block_spec hibinv hibsz hlenI pI hpIc hpIwf
+      metaParse := parse_block_spec hmbinv hmbsz hlenM pM hpMc hpMwf
+      hvalEnc := by
+        intro d hd
+        obtain ⟨q, hq, rfl, _⟩ := hmem d hd
+        rfl
+      footerEnc := by
+        show (fileImg opt fl F mb ib).drop ((fileImg opt fl F mb ib).length - 48)
+            = (Footer.mk (mHandle opt fl F mb) (iHandle opt fl F mb ib)).encode
+        rw [himgI]
+        apply List.drop_left'
+        rw [← himgI]
+        simp only [List.length_append, physicalBlock_length]
+        omega
+      metaValEnc := by
+        intro e he
+        have he' : e ∈ pM.kvs := he
+        rw [hpMkvs] at he'
+        have := List.mem_singleton.1 he'
+        subst this
+        refine ⟨fHandle opt fl F, rfl, ?_, ?_⟩
+        · show (image opt fl).length + F.length ≤ (fileImg opt fl F mb ib).length
+          omega
+        · intro c hc
+          have hF : blockAt (fileImg opt fl F mb ib) ⟨(image opt fl).length, F.length⟩ = .ok F := by
+            rw [himgF]
+            exact blockAt_phys_zero _ _ _
+          have hc' : blockAt (fileImg opt fl F mb ib) ⟨(image opt fl).length, F.length⟩ = .ok c := hc
+          rw [hF] at hc'
+          injection hc' with hc'
+          rw [← hc']
+          rfl }
 
 end BL
 end Sst
